@@ -7,6 +7,12 @@
  * The blocks are TYPED (malloc(n * sizeof(double))): see the tool note below. */
 double *doubleCalloc(size_t n)
 {
+#ifdef DG_V_SCREEN
+    /* variant screen (illegal arguments only): PROVES that no allocation is attempted after a screening failure; the
+     * symbolic executor then drops the unreachable rest of dgstrs (an assumption behind a proved assertion restricts nothing) */
+    __CPROVER_assert(0, "dgstrs allocates nothing when the screening fails");
+    __CPROVER_assume(0);
+#endif
     if (n > NCAP * NRHSCAP) vf_abort("doubleCalloc");   /* beyond the capacity of this unit: taken to fail (never on the proved domain) */
     double *p = (double *)malloc(n * sizeof(double));
     if (!p) vf_abort("doubleCalloc");
@@ -31,7 +37,17 @@ double *doubleMalloc(size_t n)
  * with is_fresh objects: 121 M clauses).  No assumption is made here: nothing is initialised except the pointer fields. */
 void h_dgstrs(void)
 {
+    /* the variant's requires fixes trans; the SAME value is set here as a constant because a requires clause does not make the
+     * symbolic executor drop the other branch (measured: 121 M clauses with a symbolic trans) */
+#if defined(DG_V_NOTRANS)
+    trans_t trans = NOTRANS;
+#elif defined(DG_V_TRANS)
+    trans_t trans = TRANS;
+#elif defined(DG_V_CONJ)
+    trans_t trans = CONJ;
+#else
     trans_t trans;
+#endif
     SuperMatrix L, U, B;
     SCformat Ls;
     NCformat Us;
@@ -49,3 +65,6 @@ void h_dgstrs(void)
     L.Store = &Ls; U.Store = &Us; B.Store = &Bs; stat.ops = ops;
     dgstrs(trans, &L, &U, perm_c, perm_r, &B, &stat, &info);
 }
+
+/* entry point of unit dgstrs_notrans (same harness, variant NOTRANS) */
+void h_dgstrs_notrans(void) { h_dgstrs(); }
